@@ -30,7 +30,7 @@ ASSUMPTIONS = [
 ]
 
 MD = {"s.src": ["a", "b", "c"], "s.src2": ["a", "d"], "s.other": ["b", "z"], "main.tab1": ["col1", "col2"]}
-PROBE_TABLES = ["s.t1", "s.t2", "s.src", "s.tmp", "<default>.t1", "main.tab1", "s.v1", "s.nosuch"]
+PROBE_TABLES = ["s.t1", "s.t2", "s.src", "s.tmp", "<default>.t1", "main.tab1", "s.v1", "s.nosuch", "s.src2", "s.other"]
 
 SCRIPTS = [
     ("ansi", "create table s.t1 as select a, b as bb from s.src; insert into s.t2 select * from s.t1"),
@@ -53,6 +53,12 @@ SCRIPTS = [
     ("mysql", "create table s.t1 as select a from s.src; rename table s.t1 to s.t9; insert into s.t2 select * from s.t9"),
     ("non-validating", "create table s.t1 as select a, b from s.src; insert into s.t2 select * from s.t1"),
     ("ansi", "insert into s.t1 select a from s.src; create table s.t1 as select b, c from s.src; commit; insert into s.t2 select * from s.t1"),
+    # scripts that RE-CREATE a table the provider already knows, with other columns, and read it back (the session shadows the catalog; nothing of it may
+    # reach the provider's own data)
+    ("ansi", "create table s.src2 as select b as p, c as q from s.src; insert into s.t2 select * from s.src2"),
+    ("ansi", "create table main.tab1 as select a as col9 from s.src; insert into main.tab3 select * from main.tab1; selec from where"),
+    ("non-validating", "create table s.other as select a as p from s.src; insert into s.t2 select * from s.other"),
+    ("ansi", "insert into s.t2 select * from s.src2; insert into s.t3 select * from main.tab1 join s.other on s.other.b = main.tab1.col1"),
     # byte-identical to statements of the tsql scripts below (a process-wide statement cache would leak T-SQL parse trees into these runs)
     ("ansi", "UPDATE s.t1 SET a = s.src.a FROM s.src WHERE s.src.b = s.t1.b"),
     ("snowflake", "UPDATE s.t1 SET a = s.src.a FROM s.src WHERE s.src.b = s.t1.b"),
@@ -90,6 +96,12 @@ def run_pool():
         for prov in ("md", "md2", "default"):
             specs.append({"dialect": "ansi", "sql": s, "provider": prov, "config": {"LATERAL_COLUMN_ALIAS_REFERENCE": True}})
         specs.append({"dialect": "ansi", "sql": s, "provider": "md2", "config": None})
+    # silent mode: the scripts holding a statement of an unsupported type, analysed with silent_mode=True (their strict runs are above) - a run
+    # must not inherit the mode of an earlier run of the same dialect
+    for d, s in SCRIPTS:
+        if d != "non-validating" and any(k in s for k in ("create index", "grant select", "cache table", "; commit;")):
+            for prov in ("default", "md"):
+                specs.append({"dialect": d, "sql": s, "provider": prov, "config": None, "silent": True})
     return specs
 
 
@@ -112,7 +124,7 @@ def make_sa():
 
 
 def spec_key(spec):
-    return json.dumps([spec["dialect"], spec["sql"], spec["provider"], spec["config"]], sort_keys=True)
+    return json.dumps([spec["dialect"], spec["sql"], spec["provider"], spec["config"]] + ([True] if spec.get("silent") else []), sort_keys=True)
 
 
 def make_faulty(j):
@@ -153,7 +165,7 @@ def execute_run(spec, provider_obj=None):
             prov = make_faulty(int(spec["provider"].split(":")[1]))
     scope = SQLLineageConfig(**spec["config"]) if spec["config"] else contextlib.nullcontext()
     with scope:
-        return observe.dump(spec["sql"], spec["dialect"], provider=prov)
+        return observe.dump(spec["sql"], spec["dialect"], provider=prov, silent=bool(spec.get("silent")))
 
 
 def _baseline_task(spec):
